@@ -29,7 +29,9 @@ JHmtx(t) ==
   IF ~HmtxWF(t.b, t.ng, t.nm) THEN "hmtx:malformed"
   ELSE IF HmtxDecode(t.b, t.ng, t.nm) # t.metrics THEN "hmtx:independent-reader-sees-other-metrics"
   ELSE IF t.back # t.metrics THEN "hmtx:decompile-differs"
-  ELSE IF t.hb # <<>> /\ t.hb # [g \in Idx(t.metrics) |-> t.metrics[g][1]] THEN "hmtx:harfbuzz-sees-other-advances"
+  \* named observer deviation HBAdvanceInt16: HarfBuzz 12 reports advances above 32767 as negative numbers (mod 2^16)
+  ELSE IF t.hb # <<>> /\ \E g \in Idx(t.metrics) : t.hb[g] # t.metrics[g][1] /\ ~(t.metrics[g][1] > 32767 /\ t.hb[g] = t.metrics[g][1] - 65536)
+       THEN "hmtx:harfbuzz-sees-other-advances"
   ELSE "ok"
 JLoca(t) ==
   LET d == LocaDecode(t.b, t.long) IN
@@ -84,10 +86,12 @@ JTuple(t) ==
   ELSE IF \E i \in Idx(t.peaks) : SW(t.coordb, 2 * (i - 1)) # t.peaks[i] THEN "tuple:peak-coordinates"
   ELSE "ok"
 JRt(t) == IF t.c0 = t.c1 THEN "ok" ELSE "roundtrip:" \o t.table \o ":decompile-differs"
+\* the encoder or decoder raised on a content inside the format's stated domain: no action of the codec allows that
+JRaised(t) == "raised-on-valid-content:" \o t.what
 Judge(t) ==
   CASE t.k = "cmap" -> JCmap(t) [] t.k = "cmap14" -> JCmap14(t) [] t.k = "hmtx" -> JHmtx(t) [] t.k = "loca" -> JLoca(t)
     [] t.k = "glyph" -> JGlyph(t) [] t.k = "comp" -> JComp(t) [] t.k = "cov" -> JCov(t) [] t.k = "classdef" -> JClass(t)
-    [] t.k = "name" -> JName(t) [] t.k = "tuple" -> JTuple(t) [] t.k = "rt" -> JRt(t) [] OTHER -> "unknown-kind"
+    [] t.k = "name" -> JName(t) [] t.k = "tuple" -> JTuple(t) [] t.k = "rt" -> JRt(t) [] t.k = "raised" -> JRaised(t) [] OTHER -> "unknown-kind"
 Init == tid \in 1..NTraces /\ verdict = "pending"
 Next == verdict = "pending" /\ verdict' = Judge(Traces[tid]) /\ UNCHANGED tid
 Report == (verdict \notin {"pending", "ok"}) => Reject(tid, verdict)
